@@ -184,7 +184,19 @@ def main(prop, run, argv=None, level="model_checking"):
         return ctx.finish()
     except SystemExit:
         raise
-    except Exception:
+    except Exception as e:
+        # An exception that comes out of the library itself (a frame of the traceback is a file of the repository under
+        # test) while the harness was making a call the property says must work is a violation, not a machinery failure.
+        repo = os.path.realpath(os.environ.get("VERIF_REPO", "/repo"))
+        frames = traceback.extract_tb(e.__traceback__)
+        lib = [f for f in frames if os.path.realpath(f.filename).startswith(repo + os.sep)]
+        from .tlc import TLCError
+        if lib and not isinstance(e, TLCError):
+            traceback.print_exc()
+            last = lib[-1]
+            ctx.violation("CallSucceeds", os.path.relpath(os.path.realpath(last.filename), repo) + ":" + last.name,
+                          type(e).__name__, repr(e)[:300])
+            return ctx.finish()
         traceback.print_exc()
         print("MACHINERY-FAILURE property=%s (exit 2)" % prop)
         return 2
